@@ -591,8 +591,9 @@ def evaluate(facts, fn, n, two_adicity, q, unit="ws"):
     return "ok", vals
 
 
-def compare_with_dft(vals, n):
-    """None if vals[i] == sum_j a_j w^(ij) modulo Phi_n(w); else a message"""
+def compare_with_dft(vals, n, m=None):
+    """None if vals[i] == sum_{j<m} a_j w^(ij) modulo Phi_n(w) (m = number of inputs, n by default); else a message"""
+    m = n if m is None else m
     phi = cyclotomic(n)
     for i, v in enumerate(vals):
         coef = {j: {} for j in range(n)}
@@ -605,7 +606,7 @@ def compare_with_dft(vals, n):
             coef[j][wexp] = coef[j].get(wexp, 0) + c
         for j in range(n):
             got = reduce_mod(coef[j], phi)
-            want = reduce_mod({(i * j) % n: 1}, phi)
+            want = reduce_mod({(i * j) % n: 1}, phi) if j < m else reduce_mod({}, phi)
             if got != want:
                 shown = " + ".join("%s*w^%d" % (c, e) if c != 1 else "w^%d" % e for e, c in sorted(coef[j].items())) or "0"
                 return "output %d: the coefficient of input %d is %s, which is not omega^(%d*%d) = w^%d modulo Phi_%d(w)" % (i, j, shown, i, j, (i * j) % n, n)
@@ -776,3 +777,85 @@ def check_root_order(res, facts):
             rule.noverdict(key, "shape not modelled (%s)" % verdict[1], fn.loc)
             decided.append(False)
     return len(decided) == 2 and all(decided)
+
+
+def _degree_aware_first(md, H):
+    import copy as _copy
+
+    def is_one(ex, st, fr, t, a):
+        q = SX.q_of(ex.deref(a[0])) if len(a) == 1 else None
+        if q is not None and q.is_poly() and q.n.is_const():
+            return q.n.const_value() == 1
+        return NotImplemented
+    md.on(SX.by(None, "is_one"), is_one)
+    ival = lambda ex, x: ex.deref(x)
+    md.on(SX.by(None, "is_power_of_two"), lambda ex, st, fr, t, a: (ival(ex, a[0]) > 0 and ival(ex, a[0]) & (ival(ex, a[0]) - 1) == 0) if len(a) == 1 and _isint(ival(ex, a[0])) else NotImplemented)
+    md.on(SX.by(None, "checked_next_power_of_two"), lambda ex, st, fr, t, a: SX.some(1 if ival(ex, a[0]) <= 1 else 1 << (ival(ex, a[0]) - 1).bit_length()) if len(a) == 1 and _isint(ival(ex, a[0])) else NotImplemented)
+    md.on(SX.by(None, "checked_sub"), lambda ex, st, fr, t, a: (SX.some(ival(ex, a[0]) - ival(ex, a[1])) if ival(ex, a[0]) >= ival(ex, a[1]) else SX.none()) if len(a) == 2 and all(_isint(ival(ex, x)) for x in a) else NotImplemented)
+    md.on(SX.by(None, "size"), lambda ex, st, fr, t, a: ival(ex, a[0]).fields.get(0) if len(a) == 1 and isinstance(ival(ex, a[0]), SX.Obj) and "Radix2EvaluationDomain" in str(ival(ex, a[0]).adt) else NotImplemented)
+
+    def fill(ex, st, fr, t, a):
+        it = H["elems"](ex, a[0]) if len(a) == 2 else None
+        if it is None:
+            return NotImplemented
+        for r in it:
+            ex.write_ref(r, _copy.deepcopy(a[1]))
+        return SX.Obj(adt="()")
+    md.on(SX.by(None, "fill"), fill)
+
+    def resize(ex, st, fr, t, a):
+        d = ex.deref(a[0]) if len(a) == 3 else None
+        k = ex.deref(a[1]) if len(a) == 3 else None
+        if isinstance(d, SX.Obj) and d.adt == "array" and _isint(k):
+            cur = len(d.fields)
+            for i in range(cur, k):
+                d.fields[i] = _copy.deepcopy(a[2])
+            for i in range(k, cur):
+                d.fields.pop(i, None)
+            return SX.Obj(adt="()")
+        return NotImplemented
+    md.on(SX.by(None, "resize"), resize)
+
+
+DEGREE_AWARE = [(2, 1), (2, 2), (4, 1), (4, 3), (8, 1), (8, 3), (8, 5), (8, 8), (16, 2), (16, 5), (16, 9)]
+
+
+def check_degree_aware(res, facts, tier):
+    rule = res.rule("R-DFT.degree-aware", "Radix2EvaluationDomain::degree_aware_fft_in_place on m <= n coefficients gives out[i] = sum_{j<m} a_j g^(ij): the zero padding, the partial bit reversal, the duplication of initial values and the shortened butterfly schedule together [polynomial-constant propagation, modulo Phi_n]", 0)
+    fns = [f for f in facts.fns(unit="ws", crate="ark_poly") if f.name == "degree_aware_fft_in_place" and f.kind != "Closure" and "radix2::fft::" in f.id]
+    if not fns:
+        rule.bad("ark_poly|radix2::degree_aware_fft_in_place|dft", "anchor missing")
+        return
+    fn = fns[0]
+    sizes = DEGREE_AWARE + ([(32, 3), (32, 17), (64, 5)] if tier == "thorough" else [])
+    for n, m in sizes:
+        key = "ark_poly|radix2::degree_aware_fft_in_place|n=%d, %d coefficients" % (n, m)
+        ex = SX.Engine(facts, "ws", _models(_degree_aware_first), max_paths=4, max_depth=8, inline_limit=600, max_visits=400000)
+        arr = SX.Obj(adt="array", fields={i: Q.var("a%d" % i) for i in range(m)})
+        logn = n.bit_length() - 1
+        dom = SX.Obj(adt="ark_poly::domain::radix2::Radix2EvaluationDomain",
+                     fields={0: n, 1: logn, 2: Q.var("nf"), 3: Q.var("ninv"), 4: Q.var("w"), 5: Q.var("w"), 6: Q.const(1), 7: Q.const(1), 8: Q.const(1)})
+        if fn.d["argc"] != 2:
+            rule.noverdict(key, "shape not modelled (signature changed)", fn.loc)
+            continue
+        try:
+            paths = [p for p in ex.run(fn, [SX.Ref(SX.Cell(dom)), SX.Ref(SX.Cell(arr))]) if "panic" not in p.flags]
+        except RecursionError:
+            rule.noverdict(key, "shape not modelled (recursion limit)", fn.loc)
+            continue
+        if len(paths) != 1 or paths[0].flags:
+            rule.noverdict(key, "shape not modelled (%s)" % (sorted(paths[0].flags)[:4] if paths else "no path"), fn.loc)
+            continue
+        out = ex.deref(paths[0].args.cell(2).v) if paths[0].args is not None else None
+        if not (isinstance(out, SX.Obj) and out.adt == "array" and len(out.fields) == n):
+            rule.bad(key, "the result vector has %s entries, expected the domain size %d" % (len(out.fields) if isinstance(out, SX.Obj) else "?", n), fn.loc)
+            continue
+        vals = [SX.q_of(out.fields[i]) for i in range(n)]
+        if any(v is None or not v.is_poly() for v in vals):
+            rule.noverdict(key, "shape not modelled (an output slot is not a polynomial)", fn.loc)
+            continue
+        msg = compare_with_dft(vals, n, m)
+        if msg:
+            rule.bad(key, "not the evaluations of the degree-%d polynomial on the size-%d domain: %s" % (m - 1, n, msg), fn.loc)
+        else:
+            rule.ok(key, "all %d outputs equal sum_{j<%d} a_j w^(ij) modulo Phi_%d" % (n, m, n), fn.loc)
